@@ -13,7 +13,7 @@ async def _wrap(rng, desc):
     cfg = mixgen.draw_config(rng, frags=(None, 64))
     cfg['instrument_queue'] = True
     p = Pair(rng, cfg)
-    p.driver.horizon = 5000.0
+    p.driver.horizon = 1.0e5
     await p.start()
     for side in 'cs':
         p.ep(side)._stream_control._maximum_stream_id = desc['space']
